@@ -187,7 +187,7 @@ def run_property(pid, tier, seed, jobs=None, write_baseline=False, only_units=No
             undecided.append(o)
             continue
         # refuted, or an obligation that is proved on the unchanged tree and no longer discharges
-        fn = nm.split("/")[0]
+        fn = nm.split("/")[0] if o.get("backend") != "frame" else nm
         key = (o["unit"], fn)
         if key not in seen_fn:
             seen_fn[key] = _concretise(pid, o, results, seed)
@@ -373,6 +373,9 @@ def _concretise(pid, o, results, seed):
     w = o.get("witness") or {}
     if isinstance(w, dict) and w.get("concrete"):
         return w["concrete"]            # a bounded monitor already holds the failing input
+    parts = o["name"].split("/")
+    if o.get("backend") == "frame" and len(parts) >= 3:
+        fn = parts[1]                 # frame obligations are named <unit>/<qualified function>/modifies.nothing
     if "[" in fn:
         fn = fn.split("[")[0]
     hint = dict(function=fn, obligation=o["name"], path=o["path"], witness=o.get("witness"), property=pid,
